@@ -1,1 +1,275 @@
-/-! Property theorems for C12 (statements + proofs by reference to `Proof/`). Not built yet. -/
+import GraafVerif.Proof.PredALSched
+import GraafVerif.Proof.PredMXComplete
+import GraafVerif.Proof.PredEL
+import GraafVerif.Proof.QueryALSeq
+/-!
+# C12 — structural predicates decide exactly their mathematical definitions
+
+Only statements and proofs by reference.  `Pred.Def.*` (`Spec/Pred.lean`) are the
+definitions over the abstract digraph `(V, A)` of `Spec/Query.lean`; `Pred.X.*` /
+`Pred.Blanket.*` (`Model/Pred.lean`) the models of the code; `X.abs r` the digraph a
+representation denotes.  A `Bool` model function `p` "decides" a definition `D` when
+`p = true ↔ D`; for the models that can panic (`Option Bool`) the theorem also says they do not.
+-/
+namespace GraafVerif.C12
+open GraafVerif.Repr GraafVerif.Query GraafVerif.Pred
+
+/-- The eight unary predicates of one representation value (query model `q`, abstract digraph
+`G`, its own `is_complete / is_semicomplete / is_tournament / is_simple` models). -/
+structure UnaryStatement (q : Core) (G : Digraph) (isComplete isSemicomplete isTournament isSimple : Option Bool) : Prop where
+  complete : ∃ b, isComplete = some b ∧ (b = true ↔ Def.IsComplete G)
+  semicomplete : ∃ b, isSemicomplete = some b ∧ (b = true ↔ Def.IsSemicomplete G)
+  tournament : ∃ b, isTournament = some b ∧ (b = true ↔ Def.IsTournament G)
+  regular : ∃ b, Blanket.isRegular q = some b ∧ (b = true ↔ Def.IsRegular G)
+  balanced : ∃ b, Blanket.isBalanced q = some b ∧ (b = true ↔ Def.IsBalanced G)
+  symmetric : Blanket.isSymmetric q = true ↔ Def.IsSymmetric G
+  oriented : Blanket.isOriented q = true ↔ Def.IsOriented G
+  simple : isSimple = some true ∧ Def.IsSimple G
+
+/-- The three relational predicates for a pair of digraphs of one representation. -/
+structure RelStatement (h d : Core) (H D : Digraph) : Prop where
+  sub : Blanket.isSubdigraph h d = true ↔ Def.IsSubdigraph H D
+  super : Blanket.isSuperdigraph h d = true ↔ Def.IsSuperdigraph H D
+  spanning : Blanket.isSpanningSubdigraph h d = true ↔ Def.IsSpanningSubdigraph H D
+
+/-- **Full statement of C12**: all digraphs / ordered pairs of digraphs of every
+representation (any order, `AdjacencyMap` with arbitrary ids), every thread count `t ≥ 1` for the
+threaded `AdjacencyList::is_semicomplete` — under EVERY schedule of its workers. -/
+def Statement : Prop :=
+  (∀ d : AdjList, d.WF → ∀ t, 0 < t →
+    UnaryStatement (Query.AL.core d) (Query.AL.abs d) (some (Pred.AL.isComplete d)) (some (Pred.AL.isSemicomplete d t))
+      (some (Pred.AL.isTournament d)) (some (Pred.AL.isSimple d))) ∧
+  (∀ d : AdjList, d.WF → ∀ t, 0 < t → ∀ sched b, Pred.AL.isSemicompleteSched d t sched = some b →
+    (b = true ↔ Def.IsSemicomplete (Query.AL.abs d))) ∧
+  (∀ d : AdjMap, d.WF → 0 < d.order →
+    UnaryStatement (Query.AM.core d) (Query.AM.abs d) (some (Pred.AM.isComplete d)) (some (Pred.AM.isSemicomplete d))
+      (some (Pred.AM.isTournament d)) (some (Pred.AM.isSimple d))) ∧
+  (∀ d : AdjMatrix, d.WF → d.order * d.order < 2 ^ 64 →
+    UnaryStatement (Query.MX.core d) (Query.MX.abs d) (Pred.MX.isComplete d) (some (Pred.MX.isSemicomplete d))
+      (some (Pred.MX.isTournament d)) (some (Pred.MX.isSimple d))) ∧
+  (∀ d : EdgeList, d.WF →
+    UnaryStatement (Query.EL.core d) (Query.EL.abs d) (Pred.EL.isComplete d) (some (Pred.EL.isSemicomplete d))
+      (some (Pred.EL.isTournament d)) (some (Pred.EL.isSimple d))) ∧
+  (∀ d : AdjListW, d.WF →
+    UnaryStatement (Query.WL.core d) (Query.WL.abs d) (some (Pred.WL.isComplete d)) (some (Pred.WL.isSemicomplete d))
+      (some (Pred.WL.isTournament d)) (some (Pred.WL.isSimple d))) ∧
+  (∀ h d : AdjList, h.WF → d.WF → RelStatement (Query.AL.core h) (Query.AL.core d) (Query.AL.abs h) (Query.AL.abs d)) ∧
+  (∀ h d : AdjMap, h.WF → d.WF → RelStatement (Query.AM.core h) (Query.AM.core d) (Query.AM.abs h) (Query.AM.abs d)) ∧
+  (∀ h d : AdjMatrix, h.WF → d.WF → RelStatement (Query.MX.core h) (Query.MX.core d) (Query.MX.abs h) (Query.MX.abs d)) ∧
+  (∀ h d : EdgeList, h.WF → d.WF → RelStatement (Query.EL.core h) (Query.EL.core d) (Query.EL.abs h) (Query.EL.abs d)) ∧
+  (∀ h d : AdjListW, h.WF → d.WF → RelStatement (Query.WL.core h) (Query.WL.core d) (Query.WL.abs h) (Query.WL.abs d))
+
+/-! ## The blanket impls, generically over any representation whose core queries are correct [P0] -/
+
+theorem blanket_balanced {q : Core} {G : Digraph} (h : CoreCorrect q G) :
+    ∃ b, Blanket.isBalanced q = some b ∧ (b = true ↔ Def.IsBalanced G) := isBalanced_correct h
+theorem blanket_symmetric {q : Core} {G : Digraph} (h : CoreCorrect q G) :
+    Blanket.isSymmetric q = true ↔ Def.IsSymmetric G := isSymmetric_correct h
+theorem blanket_oriented {q : Core} {G : Digraph} (h : CoreCorrect q G) :
+    Blanket.isOriented q = true ↔ Def.IsOriented G := isOriented_correct h
+/-- `is_regular` (the same body in all five representations; a digraph has at least one vertex). -/
+theorem blanket_regular {q : Core} {G : Digraph} (h : CoreCorrect q G) (hne : G.verts ≠ []) :
+    ∃ b, Blanket.isRegular q = some b ∧ (b = true ↔ Def.IsRegular G) := isRegular_correct h hne
+theorem blanket_rel {h d : Core} {H D : Digraph} (hh : CoreCorrect h H) (hd : CoreCorrect d D)
+    (hH : H.Valid) (hD : D.Valid) : RelStatement h d H D :=
+  ⟨isSubdigraph_correct hh hd hH, isSuperdigraph_correct hh hd hD, isSpanningSubdigraph_correct hh hd⟩
+/-- `is_superdigraph` is the converse relation of `is_subdigraph`. -/
+theorem isSuperdigraph_converse (h d : Core) : Blanket.isSuperdigraph h d = Blanket.isSubdigraph d h := rfl
+
+/-- Counting facts behind the `size` shortcuts: a semicomplete digraph has at least `n(n-1)/2`
+arcs, a tournament exactly that many. -/
+theorem semicomplete_size {G : Digraph} (hG : G.Valid) (h : Def.IsSemicomplete G) :
+    G.verts.length * (G.verts.length - 1) / 2 ≤ Spec.size G := size_ge_of_semicomplete hG h
+theorem tournament_size {G : Digraph} (hG : G.Valid) (h : Def.IsTournament G) :
+    Spec.size G = G.verts.length * (G.verts.length - 1) / 2 := size_eq_of_tournament hG h
+
+/-! ## AdjacencyList [P0] — `is_semicomplete` for every thread count (functional worker model) -/
+theorem al_unary (d : AdjList) (h : d.WF) (t : Nat) (ht : 0 < t) :
+    UnaryStatement (Query.AL.core d) (Query.AL.abs d) (some (Pred.AL.isComplete d)) (some (Pred.AL.isSemicomplete d t))
+      (some (Pred.AL.isTournament d)) (some (Pred.AL.isSimple d)) where
+  complete := ⟨_, rfl, Pred.AL.isComplete_correct h⟩
+  semicomplete := ⟨_, rfl, Pred.AL.isSemicomplete_correct h t ht⟩
+  tournament := ⟨_, rfl, Pred.AL.isTournament_correct h⟩
+  regular := isRegular_correct (Query.AL.core_correct h) (by
+    have := h.1
+    intro e
+    have : (Query.AL.abs d).verts.length = d.order := by simp [Query.AL.abs, AdjList.vertices]
+    rw [e] at this; simp at this; omega)
+  balanced := isBalanced_correct (Query.AL.core_correct h)
+  symmetric := isSymmetric_correct (Query.AL.core_correct h)
+  oriented := isOriented_correct (Query.AL.core_correct h)
+  simple := ⟨by rw [Pred.AL.isSimple_true h], (Query.AL.abs_valid h).irrefl⟩
+
+/-- The sequential skeleton of the threaded scan. -/
+theorem al_scanSeq (d : AdjList) : Pred.AL.scanSeq d = true ↔ Def.IsSemicomplete (Query.AL.abs d) :=
+  Pred.AL.scanSeq_correct
+/-- `∀ t ≥ 1`: the conjunction of the workers' verdicts is the sequential scan (`chunks_tile`). -/
+theorem al_scanPar (d : AdjList) (t : Nat) (ht : 0 < t) (hn : 0 < d.order) :
+    (Par.ranges d.order t).all (Pred.AL.scanChunk d) = Pred.AL.scanSeq d := Pred.AL.scanPar_eq_seq d t ht hn
+
+theorem al_rel (h d : AdjList) (hh : h.WF) (hd : d.WF) :
+    RelStatement (Query.AL.core h) (Query.AL.core d) (Query.AL.abs h) (Query.AL.abs d) :=
+  blanket_rel (Query.AL.core_correct hh) (Query.AL.core_correct hd) (Query.AL.abs_valid hh) (Query.AL.abs_valid hd)
+
+/-- Non-vacuity: the 3-cycle is a tournament, regular, oriented, not complete; 16 threads. -/
+example : Pred.AL.isSemicomplete ⟨[[1], [2], [0]]⟩ 16 = true := by decide
+example : Pred.AL.isTournament ⟨[[1], [2], [0]]⟩ = true := by decide
+example : Pred.AL.isComplete ⟨[[1], [2], [0]]⟩ = false := by decide
+example : Blanket.isRegular (Query.AL.core ⟨[[1], [2], [0]]⟩) = some true := by decide
+/-- a size-shortcut defeater: 3 arcs on 3 vertices, one pair doubled, one pair missing -/
+example : Pred.AL.isTournament ⟨[[1], [0, 2], []]⟩ = false := by decide
+example : Pred.AL.isSemicomplete ⟨[[1], [0, 2], []]⟩ 2 = false := by decide
+
+/-! ## AdjacencyMatrix [P0] -/
+theorem mx_semicomplete (d : AdjMatrix) (h : d.WF) : Pred.MX.isSemicomplete d = true ↔ Def.IsSemicomplete (Query.MX.abs d) :=
+  Pred.MX.isSemicomplete_correct h
+theorem mx_tournament (d : AdjMatrix) (h : d.WF) : Pred.MX.isTournament d = true ↔ Def.IsTournament (Query.MX.abs d) :=
+  Pred.MX.isTournament_correct h
+theorem mx_simple (d : AdjMatrix) (h : d.WF) : Pred.MX.isSimple d = true ∧ Def.IsSimple (Query.MX.abs d) :=
+  ⟨Pred.MX.isSimple_true h, (Query.MX.abs_valid h).irrefl⟩
+/-- Canonical form: a well-formed matrix is determined by its order and arc relation. -/
+theorem mx_canonical {d c : AdjMatrix} (hd : d.WF) (hc : c.WF) (ho : d.order = c.order)
+    (ha : ∀ u v, d.hasArc u v = c.hasArc u v) : d = c := Pred.MX.canonical hd hc ho ha
+/-- `is_complete` (`*self == Self::complete(order)`) decides completeness, GIVEN the specification
+of the generator `complete` (C14: well formed, order `n`, arcs exactly `u ≠ v`).
+(The hypotheses are discharged by `mx_complete_spec`; see `mx_complete`.) -/
+theorem mx_complete_of_spec {d c : AdjMatrix} (h : d.WF)
+    (hcmp : Pred.MX.complete d.order = some c) (hc : c.WF) (hco : c.order = d.order)
+    (hca : ∀ u v, c.hasArc u v = (decide (u < d.order) && decide (v < d.order) && decide (u ≠ v))) :
+    Pred.MX.isComplete d = some (d == c) ∧ ((d == c) = true ↔ Def.IsComplete (Query.MX.abs d)) :=
+  Pred.MX.isComplete_of_complete_spec h hcmp hc hco hca
+theorem mx_blanket (d : AdjMatrix) (h : d.WF) :
+    (∃ b, Blanket.isRegular (Query.MX.core d) = some b ∧ (b = true ↔ Def.IsRegular (Query.MX.abs d))) ∧
+    (∃ b, Blanket.isBalanced (Query.MX.core d) = some b ∧ (b = true ↔ Def.IsBalanced (Query.MX.abs d))) ∧
+    (Blanket.isSymmetric (Query.MX.core d) = true ↔ Def.IsSymmetric (Query.MX.abs d)) ∧
+    (Blanket.isOriented (Query.MX.core d) = true ↔ Def.IsOriented (Query.MX.abs d)) :=
+  ⟨isRegular_correct (Query.MX.core_correct h) (by
+      intro e
+      have : (Query.MX.abs d).verts.length = d.order := by simp [Query.MX.abs, AdjMatrix.vertices]
+      rw [e] at this; simp at this; have := h.1; omega),
+   isBalanced_correct (Query.MX.core_correct h), isSymmetric_correct (Query.MX.core_correct h),
+   isOriented_correct (Query.MX.core_correct h)⟩
+theorem mx_rel (h d : AdjMatrix) (hh : h.WF) (hd : d.WF) :
+    RelStatement (Query.MX.core h) (Query.MX.core d) (Query.MX.abs h) (Query.MX.abs d) :=
+  blanket_rel (Query.MX.core_correct hh) (Query.MX.core_correct hd) (Query.MX.abs_valid hh) (Query.MX.abs_valid hd)
+
+/-- Non-vacuity: `complete 3` as the model builds it, and the predicates on it. -/
+example : Pred.MX.isComplete ⟨[0b011101110#64], 3⟩ = some true := by decide
+example : Pred.MX.isTournament ⟨[0b001100010#64], 3⟩ = true := by decide
+/-- size-shortcut defeater: `0→1, 1→0, 1→2` -/
+example : Pred.MX.isTournament ⟨[0b000101010#64], 3⟩ = false := by decide
+
+/-- `AdjacencyMatrix::complete(n)` (`empty` + `add_arc` of both arcs of every pair): well formed,
+order `n`, arcs exactly the ordered pairs `u ≠ v` (`n * n` must fit, as `empty` checks). -/
+theorem mx_complete_spec {n : Nat} (hn : 0 < n) (hov : n * n < 2 ^ 64) :
+    ∃ c, Pred.MX.complete n = some c ∧ c.WF ∧ c.order = n ∧
+      ∀ u v, c.hasArc u v = (decide (u < n) && decide (v < n) && decide (u ≠ v)) := Pred.MX.complete_spec hn hov
+/-- `AdjacencyMatrix::is_complete` decides completeness (generator hypotheses discharged). -/
+theorem mx_complete (d : AdjMatrix) (h : d.WF) (hov : d.order * d.order < 2 ^ 64) :
+    ∃ b, Pred.MX.isComplete d = some b ∧ (b = true ↔ Def.IsComplete (Query.MX.abs d)) :=
+  Pred.MX.isComplete_correct h hov
+
+theorem mx_unary (d : AdjMatrix) (h : d.WF) (hov : d.order * d.order < 2 ^ 64) :
+    UnaryStatement (Query.MX.core d) (Query.MX.abs d) (Pred.MX.isComplete d) (some (Pred.MX.isSemicomplete d))
+      (some (Pred.MX.isTournament d)) (some (Pred.MX.isSimple d)) where
+  complete := Pred.MX.isComplete_correct h hov
+  semicomplete := ⟨_, rfl, Pred.MX.isSemicomplete_correct h⟩
+  tournament := ⟨_, rfl, Pred.MX.isTournament_correct h⟩
+  regular := (mx_blanket d h).1
+  balanced := (mx_blanket d h).2.1
+  symmetric := (mx_blanket d h).2.2.1
+  oriented := (mx_blanket d h).2.2.2
+  simple := ⟨by rw [Pred.MX.isSimple_true h], (Query.MX.abs_valid h).irrefl⟩
+
+/-! ## `AdjacencyList::is_semicomplete` under EVERY schedule of its workers [P1] -/
+
+/-- For every thread count and every interleaving of the workers' steps (labelled transition
+system with the shared flag and both early-exit loads), once all workers are done the flag is
+the definition. -/
+theorem semicomplete_all_schedules (d : AdjList) (h : d.WF) (t : Nat) (ht : 0 < t) (sched : List Nat) (b : Bool)
+    (hb : Pred.AL.isSemicompleteSched d t sched = some b) : b = true ↔ Def.IsSemicomplete (Query.AL.abs d) :=
+  Pred.AL.semicomplete_all_schedules h t ht sched b hb
+/-- … hence every schedule agrees with the functional worker model used by the driver. -/
+theorem semicomplete_sched_eq_functional (d : AdjList) (h : d.WF) (t : Nat) (ht : 0 < t) (sched : List Nat) (b : Bool)
+    (hb : Pred.AL.isSemicompleteSched d t sched = some b) : b = Pred.AL.isSemicomplete d t :=
+  Pred.AL.semicomplete_sched_agrees_functional h t ht sched b hb
+/-- Non-vacuity: two workers on the 3-cycle plus a missing pair, two different interleavings
+reach a terminal state, with the same verdict. -/
+example : Pred.AL.isSemicompleteSched ⟨[[1], [2], [], [0]]⟩ 2 [0, 1, 0, 1, 0, 1, 0, 1, 0, 1, 0, 1, 0, 1, 0, 1] = some false := by decide
+example : Pred.AL.isSemicompleteSched ⟨[[1], [2], [], [0]]⟩ 2 [1, 1, 1, 1, 1, 1, 0, 0, 0, 0, 0, 0, 0, 0, 0, 0] = some false := by decide
+example : Pred.AL.isSemicompleteSched ⟨[[1, 2], [2], [0]]⟩ 3 [2, 1, 0, 2, 1, 0, 0, 0, 1, 1, 2, 0, 0, 1] = some true := by decide
+
+/-! ## AdjacencyMap — arbitrary vertex ids [P1] -/
+theorem am_unary (d : AdjMap) (h : d.WF) (hn : 0 < d.order) :
+    UnaryStatement (Query.AM.core d) (Query.AM.abs d) (some (Pred.AM.isComplete d)) (some (Pred.AM.isSemicomplete d))
+      (some (Pred.AM.isTournament d)) (some (Pred.AM.isSimple d)) where
+  complete := ⟨_, rfl, Pred.AM.isComplete_correct h⟩
+  semicomplete := ⟨_, rfl, Pred.AM.isSemicomplete_correct h⟩
+  tournament := ⟨_, rfl, Pred.AM.isTournament_correct h⟩
+  regular := isRegular_correct (Query.AM.core_correct h) (by
+    intro e
+    have := Pred.AM.verts_length d
+    rw [e] at this; simp at this; omega)
+  balanced := isBalanced_correct (Query.AM.core_correct h)
+  symmetric := isSymmetric_correct (Query.AM.core_correct h)
+  oriented := isOriented_correct (Query.AM.core_correct h)
+  simple := ⟨by rw [Pred.AM.isSimple_true h], (Query.AM.abs_valid h).irrefl⟩
+theorem am_rel (h d : AdjMap) (hh : h.WF) (hd : d.WF) :
+    RelStatement (Query.AM.core h) (Query.AM.core d) (Query.AM.abs h) (Query.AM.abs d) :=
+  blanket_rel (Query.AM.core_correct hh) (Query.AM.core_correct hd) (Query.AM.abs_valid hh) (Query.AM.abs_valid hd)
+/-- Non-vacuity: keys `{2, 7, 1000}`; a tournament on sparse ids; sub-digraph with a different key set. -/
+example : Pred.AM.isTournament ⟨[(2, [7]), (7, [1000]), (1000, [2])]⟩ = true := by decide
+example : Blanket.isSubdigraph (Query.AM.core ⟨[(2, [7]), (7, [])]⟩) (Query.AM.core ⟨[(2, [7]), (7, [1000]), (1000, [2])]⟩) = true := by decide
+example : Blanket.isSpanningSubdigraph (Query.AM.core ⟨[(2, [7]), (7, [])]⟩) (Query.AM.core ⟨[(2, [7]), (7, [1000]), (1000, [2])]⟩) = false := by decide
+
+/-! ## EdgeList [P1] — including `is_complete` (the generator `complete` is verified) -/
+theorem el_unary (d : EdgeList) (h : d.WF) :
+    UnaryStatement (Query.EL.core d) (Query.EL.abs d) (Pred.EL.isComplete d) (some (Pred.EL.isSemicomplete d))
+      (some (Pred.EL.isTournament d)) (some (Pred.EL.isSimple d)) where
+  complete := Pred.EL.isComplete_correct h
+  semicomplete := ⟨_, rfl, Pred.EL.isSemicomplete_correct h⟩
+  tournament := ⟨_, rfl, Pred.EL.isTournament_correct h⟩
+  regular := isRegular_correct (Query.EL.core_correct h) (by
+    intro e
+    have : (Query.EL.abs d).verts.length = d.order := by simp [Query.EL.abs, EdgeList.vertices]
+    rw [e] at this; simp at this; have := h.1; omega)
+  balanced := isBalanced_correct (Query.EL.core_correct h)
+  symmetric := isSymmetric_correct (Query.EL.core_correct h)
+  oriented := isOriented_correct (Query.EL.core_correct h)
+  simple := ⟨by rw [Pred.EL.isSimple_true h], (Query.EL.abs_valid h).irrefl⟩
+/-- `EdgeList::complete(n)`: well formed, order `n`, arcs exactly the ordered pairs `u ≠ v`. -/
+theorem el_complete_spec {n : Nat} (hn : 0 < n) :
+    ∃ c, Pred.EL.complete n = some c ∧ c.WF ∧ c.order = n ∧
+      ∀ u v, c.hasArc u v = (decide (u < n) && decide (v < n) && decide (u ≠ v)) := Pred.EL.complete_spec hn
+theorem el_canonical {d c : EdgeList} (hd : d.WF) (hc : c.WF) (ho : d.order = c.order)
+    (ha : ∀ u v, d.hasArc u v = c.hasArc u v) : d = c := Pred.EL.canonical hd hc ho ha
+theorem el_rel (h d : EdgeList) (hh : h.WF) (hd : d.WF) :
+    RelStatement (Query.EL.core h) (Query.EL.core d) (Query.EL.abs h) (Query.EL.abs d) :=
+  blanket_rel (Query.EL.core_correct hh) (Query.EL.core_correct hd) (Query.EL.abs_valid hh) (Query.EL.abs_valid hd)
+example : Pred.EL.isComplete ⟨[(0, 1), (0, 2), (1, 0), (1, 2), (2, 0), (2, 1)], 3⟩ = some true := by decide
+
+/-! ## AdjacencyListWeighted [P1] -/
+theorem wl_unary (d : AdjListW) (h : d.WF) :
+    UnaryStatement (Query.WL.core d) (Query.WL.abs d) (some (Pred.WL.isComplete d)) (some (Pred.WL.isSemicomplete d))
+      (some (Pred.WL.isTournament d)) (some (Pred.WL.isSimple d)) where
+  complete := ⟨_, rfl, Pred.WL.isComplete_correct h⟩
+  semicomplete := ⟨_, rfl, Pred.WL.isSemicomplete_correct h⟩
+  tournament := ⟨_, rfl, Pred.WL.isTournament_correct h⟩
+  regular := isRegular_correct (Query.WL.core_correct h) (by
+    intro e
+    have : (Query.WL.abs d).verts.length = d.order := by simp [Query.WL.abs, AdjListW.vertices]
+    rw [e] at this; simp at this; have := h.1; omega)
+  balanced := isBalanced_correct (Query.WL.core_correct h)
+  symmetric := isSymmetric_correct (Query.WL.core_correct h)
+  oriented := isOriented_correct (Query.WL.core_correct h)
+  simple := ⟨by rw [Pred.WL.isSimple_true h], (Query.WL.abs_valid h).irrefl⟩
+theorem wl_rel (h d : AdjListW) (hh : h.WF) (hd : d.WF) :
+    RelStatement (Query.WL.core h) (Query.WL.core d) (Query.WL.abs h) (Query.WL.abs d) :=
+  blanket_rel (Query.WL.core_correct hh) (Query.WL.core_correct hd) (Query.WL.abs_valid hh) (Query.WL.abs_valid hd)
+example : Pred.WL.isComplete ⟨[[(1, 5)], [(0, -2)]]⟩ = true := by decide
+
+/-- **C12, full statement.** -/
+theorem statement : Statement :=
+  ⟨al_unary, semicomplete_all_schedules, am_unary, mx_unary, el_unary, wl_unary, al_rel, am_rel, mx_rel, el_rel, wl_rel⟩
+
+end GraafVerif.C12
